@@ -69,10 +69,6 @@ Definition X0 : oracle := fun op a t w =>
   if op =s "assign" then mkO [a0] zero_store nomask false
   else if op =s "add" then mkO [(a1 + a0) mod W] zero_store nomask false
   else if op =s "sub" then mkO [(a1 - a0) mod W] zero_store nomask false
-  else if op =s "mul" then mkO [(a1 * a0) mod W] zero_store nomask false
-  else if op =s "mod" then mkO [if a0 =? 0 then 0 else a1 mod a0] zero_store nomask false
-  else if op =s "shl" then mkO [if a1 <? 256 then (a0 * 2 ^ a1) mod W else 0] zero_store nomask false
-  else if op =s "lt" then mkO [if a1 <? a0 then 1 else 0] zero_store nomask false
   else if op =s "alloca" then mkO [0] zero_store nomask false
   else if op =s "mstore" then mkO [] (fun s k => enc_byte a0 (k - a1)) nomask false
   else if op =s "sstore" then mkO [] (fun s k => a0) nomask false
@@ -97,8 +93,7 @@ Proof.
   split; [exact X0_ext|]. constructor; intros; try reflexivity.
   - unfold is_in, COMM_OPS in H. cbn [existsb] in H.
     repeat (apply orb_true_iff in H; destruct H as [H|H]; [apply seqb_eq in H; subst op; try reflexivity|]); try discriminate.
-    + unfold X0. cbn. f_equal. f_equal. lia.
-    + unfold X0. cbn. f_equal. f_equal. lia.
+    unfold X0. cbn. f_equal. f_equal. lia.
   - destruct s; try discriminate; cbn [store_op X0]; cbn.
     + replace (p + i - p) with i by lia. apply Z.mod_small. apply enc_byte_range.
     + apply Z.mod_small. assumption.
